@@ -99,11 +99,25 @@ def gen(rng, tier):
                    "pts": S.gen_points(rng, base, max(k, 1)), "k": k}
 
 
-def build(spec):
-    """fresh object with the history applied -> (ct, outcomes)"""
+def build(spec, probe=False):
+    """fresh object with the history applied -> (ct, outcomes).  With `probe` the object is *used* after every step
+    (default-range matrices in both directions, a call on a point, the explicit full range): the property is about
+    the steps appended so far at the time of each call, so what an earlier call computed must not leak into a later
+    one.  The results of the probes are discarded; the calls that follow are compared as usual."""
     from polliwog import CompositeTransform
     ct = CompositeTransform()
-    outs = [S.try_step(ct, st) for st in spec["steps"]]
+    outs = []
+    for st in spec["steps"]:
+        outs.append(S.try_step(ct, st))
+        if probe:
+            try:
+                ct.transform_matrix_for()
+                ct.transform_matrix_for(reverse=True)
+                ct(np.array([1.0, 2.0, 3.0]))
+                ct(np.array([[1.0, 2.0, 3.0]]), reverse=True)
+                ct.transform_matrix_for(from_range=(0, len(ct.transforms)))
+            except Exception:      # a probe that raises says nothing by itself; the compared calls below will
+                pass
     return ct, outs
 
 
@@ -169,7 +183,7 @@ def make(spec):
             S.range_tokens(ln.tok("M"), r).b(rev)
 
     def impl_matrix():
-        ct, outs = build(spec)
+        ct, outs = build(spec, probe=len(spec["steps"]) % 2 == 1)   # odd histories: the object was used after every step
         items = step_items(outs)
         for r in spec["ranges"]:
             for rev in (False, True):
@@ -187,7 +201,7 @@ def make(spec):
             S.pts_tokens(ln, P[:1] if single else stack, single)
 
         def impl_call(dz=dz, av=av, plan=plan):
-            ct, outs = build(spec)
+            ct, outs = build(spec, probe=(dz != av))
             items = step_items(outs)
             for r, rev, single in plan:
                 arg = P[0].copy() if single else stack.copy()
@@ -225,7 +239,7 @@ def oracle(spec):
     def bad(key, msg):
         out.append((key, msg))
 
-    ct, outs = build(spec)
+    ct, outs = build(spec, probe=len(spec["steps"]) % 2 == 1)   # odd histories: the object was used after every step
     steps = spec["steps"]
     docs = [S.documented(st) for st in steps]
     # --- returned indices; valid parameters are accepted -----------------------------------------------------
